@@ -21,6 +21,8 @@ plausibly commit) such that:
  3. it is DIFFERENT IN KIND from these earlier ideas, which have already been tried: {prevs} - a different mechanism and
     preferably a different function or file. Think about rarely used constructor options, public methods, state kept between calls, and code paths of
     the anchored files (and of the files they call into) that a test generator focused on the common path could overlook.
+ 4. the failing scenario uses the library the way an ordinary user would (documented constructors, public methods, attributes a user may
+    reasonably set, ordinary data files) - no monkey-patching, no reaching into private state, no corrupted objects.
 Do not touch the tests. Do not add comments that reveal the change is deliberate. Keep the diff small (a few lines). Leave it applied and UNCOMMITTED in the worktree.
 
 Also write in the worktree root:
@@ -34,7 +36,7 @@ Confirm: suite passes with the change; demo exits 1 with the change and 0 withou
 for pid in pids:
     d=props[pid]
     prevs=[]
-    for suf in ['','-2','-3','-4','-5','-6','-7','-8','-9','-10','-11','-12']:
+    for suf in ['','-2','-3','-4','-5','-6','-7','-8','-9','-10','-11','-12','-13','-14']:
         f='/verif/seeded/%s%s/meta.json'%(pid,suf)
         if os.path.exists(f): prevs.append('"%s"'%json.load(open(f))['change'])
     wt='/tmp/w%s_%s'%(rnd,pid)
